@@ -236,57 +236,123 @@ class Capture:
 
     def on_object(self, obj, dic):
         torch = T()["torch"]
+        import numpy as np
+
         self.dic = dic
         name = type(obj).__name__
-        if name not in ("Optimizer", "MCMC") or obj is self.algo:
+        if name not in ("Optimizer", "MCMC", "HMC") or obj is self.algo:
             return
         self.algo = obj
         cap = self
+        cap.trace = []  # step / logger / tune / save events in the order they really happen
 
-        def record():
-            cap.rec.append((obj._epoch, [p.tensor.detach().clone() for p in obj.parameters]))
+        def record(label=None):
+            cap.rec.append((obj._epoch if label is None else label, [p.tensor.detach().clone() for p in obj.parameters]))
+
+        def wrap_loggers(rec_label):
+            for lg in getattr(obj, "loggers", ()):
+                if hasattr(lg, "log"):
+                    inner_l = lg.log
+
+                    def log(*a, _inner=inner_l, **k):
+                        if k.get("sample", 1) != 0:  # MCMC logs the initial state as sample 0 before the loop
+                            cap.trace.append("logger")
+                            if rec_label:
+                                record(k.get("sample"))
+                        return _inner(*a, **k)
+
+                    lg.log = log
 
         if name == "Optimizer":
             inner = obj.optimizer.step
 
             def step(*a, **k):
                 r = inner(*a, **k)
+                cap.trace.append("step")
                 record()
                 return r
 
             obj.optimizer.step = step
-        else:
+            wrap_loggers(False)
+        elif name == "MCMC":
             for op in obj._operators:
-                inner_t = op.tune
+                inner_t, inner_s = op.tune, op.step
 
                 def tune(*a, _inner=inner_t, **k):
+                    cap.trace.append("tune")
                     record()  # parameters after accept/reject of this iteration
                     return _inner(*a, **k)
 
-                op.tune = tune
-        inner_save = obj.save_full_state
+                def ostep(*a, _inner=inner_s, **k):
+                    cap.trace.append("step")
+                    return _inner(*a, **k)
 
-        def save(*a, **k):
-            r = inner_save(*a, **k)
+                op.tune, op.step = tune, ostep
+            wrap_loggers(False)
+        else:
+            class IntegratorProxy:
+                def __init__(self, inner):
+                    object.__setattr__(self, "_inner", inner)
+
+                def __call__(self, *a, **k):
+                    cap.trace.append("step")
+                    return self._inner(*a, **k)
+
+                def __getattr__(self, n):
+                    return getattr(self._inner, n)
+
+                def __setattr__(self, n, v):
+                    setattr(self._inner, n, v)
+
+            obj.integrator = IntegratorProxy(obj.integrator)
+            wrap_loggers(True)  # HMC has no counter attribute: the label is what it hands to its loggers
+
+        def snapshot(fname, state):
             done = len(cap.rec)
-            fname = a[0] if a else k.get("checkpoint", getattr(obj, "checkpoint", None))
+            cap.trace.append("save")
             keep = os.path.join(cap.workdir, f"saved-{done}.json")
             shutil.copyfile(os.path.join(cap.workdir, fname), keep)
             cap.snaps[done] = {
-                "state": copy.deepcopy(obj.state_dict()),
+                "state": state,
                 "params": [(p.id, p.tensor.detach().clone(), isinstance(p.tensor, torch.nn.Parameter))
                            for p in obj.parameters],
-                "rng": torch.get_rng_state(),
+                "rng": (torch.get_rng_state(), np.random.get_state()),
                 "file": keep,
+                "trace": list(cap.trace),
             }
-            return r
 
-        obj.save_full_state = save
+        if name == "HMC":
+            import torchtree.inference.hmc.hmc as hmod
+
+            if not hasattr(hmod, "_c17_orig_save"):
+                hmod._c17_orig_save = hmod.save_parameters
+
+            def save_params(fname, params, *a, **k):
+                r = hmod._c17_orig_save(fname, params, *a, **k)
+                c = _CUR["cap"]
+                if c is cap:
+                    snapshot(fname, {})
+                return r
+
+            hmod.save_parameters = save_params
+        else:
+            inner_save = obj.save_full_state
+
+            def save(*a, **k):
+                r = inner_save(*a, **k)
+                fname = a[0] if a else k.get("checkpoint", getattr(obj, "checkpoint", None))
+                snapshot(fname, copy.deepcopy(obj.state_dict()))
+                return r
+
+            obj.save_full_state = save
         inner_run = obj.run
 
         def run():
             if cap.rng_at_start is not None:
-                torch.set_rng_state(cap.rng_at_start)
+                torch.set_rng_state(cap.rng_at_start[0])
+                np.random.set_state(cap.rng_at_start[1])
+            else:
+                np.random.seed(int(torch.initial_seed()) % (2 ** 32))
             return inner_run()
 
         obj.run = run
@@ -478,6 +544,16 @@ def spec_mcmc(ops, adaptors, iters, freq):
     return s
 
 
+def spec_hmc(iters, freq, dense=False):
+    """the standalone HMC runnable (torchtree/inference/hmc/hmc.py): parameters-only checkpoints"""
+    return [param("h", [0.3, -0.4]),
+            {"id": "joint", "type": "JointDistributionModel", "distributions": [normal("dh", "h", 0.0, 1.0)]},
+            {"id": "hmc", "type": "HMC", "joint": "joint", "parameters": ["h"], "iterations": iters, "checkpoint": "ck.json",
+             "checkpoint_frequency": freq, "every": 100000,
+             "integrator": {"id": "leap", "type": "LeapfrogIntegrator", "steps": 3, "step_size": 0.1},
+             "loggers": [{"id": "log", "type": "Logger", "parameters": ["h"], "file_name": "log.csv"}]}]
+
+
 # ============================================================================ oracles on one configuration
 def params_canon(params):
     return [(i, str(t.dtype), nn, toks(t.tolist())) for i, t, nn in params]
@@ -511,8 +587,10 @@ class Recording(dict):
 
 def walk_state_objects(algo):
     """(object, its state dict) for the algorithm and everything below it that has the pair"""
-    out = [algo]
     name = type(algo).__name__
+    if name == "HMC":
+        return []  # no state_dict / load_state_dict at all (see the loop row HMC.run)
+    out = [algo]
     if name == "Optimizer":
         if algo.scheduler is not None:
             out.append(algo.scheduler)
@@ -625,7 +703,8 @@ class Runner:
         ks = sorted(full.snaps)
         if points == "some" and len(ks) > 2:
             ks = sorted(ck.rng.sample(ks[:-1], 1) + [ks[-1]])
-        loop = {"Optimizer": "Optimizer._run_closure" if cfg.get("algo") == "LBFGS" else "Optimizer._run", "MCMC": "MCMC.run"}[kind]
+        loop = {"Optimizer": "Optimizer._run_closure" if cfg.get("algo") == "LBFGS" else "Optimizer._run", "MCMC": "MCMC.run",
+                "HMC": "HMC.run"}[kind]
         for k in ks:
             snap = full.snaps[k]
             key = (kind, json.dumps(cfg, sort_keys=True), k)
@@ -643,7 +722,7 @@ class Runner:
                                   dict(replay, error=err)))
                 continue
             try:
-                after = dry.algo.state_dict()
+                after = dry.algo.state_dict() if kind != "HMC" else {}
             except Exception as e:
                 self.fail.append((f"state_dict-raises:{kind}:{type(e).__name__}", f"state_dict() after restart raises {e!r}", replay))
                 continue
@@ -671,7 +750,22 @@ class Runner:
             labels_w, labels_g = [l for l, _ in want], [l for l, _ in got]
             if self.drv:
                 rep = self.drv.ask(f"loop {loop} {n_iter} {k}")
-                model_labels = [int(x) for x in rep.split("labels ")[1].split(",")] if "labels " in rep and rep.split("labels ")[1] else []
+                lab = rep.split("labels ")[1].split(" order")[0].strip() if "labels " in rep else ""
+                model_labels = [int(x) for x in lab.split(",")] if lab else []
+                order = rep.split(" order ")[1].split(" ")[0].split(",") if " order " in rep else []
+                seen_kinds = set(snap.get("trace", []))
+                want_order = [e for e in order if e in seen_kinds]
+                tr = snap.get("trace", [])
+                last_step = max((i for i, e in enumerate(tr) if e == "step"), default=0)
+                got_order = list(dict.fromkeys(tr[last_step:]))
+                if got_order != [e for e in want_order if e in got_order] or set(got_order) != set(e for e in want_order):
+                    ck.mismatch("order of step/logger/tune/save observed in the run differs from the generated loop row",
+                                {"loop": loop, "observed": got_order, "table": order})
+                if kind != "HMC":
+                    m_counter = int(rep.split("counter ")[1].split(" ")[0])
+                    if snap["state"].get("iteration") != m_counter:
+                        ck.mismatch("'iteration' in the checkpoint differs from the Lean savedCounter",
+                                    {"loop": loop, "k": k, "impl": snap["state"].get("iteration"), "model": m_counter})
                 if rep == "bad-op" or model_labels != labels_g:
                     ck.mismatch("labels visited by the restarted run differ from the Lean loop model",
                                 {"loop": loop, "iterations": n_iter, "k": k, "impl": labels_g, "model": rep})
@@ -683,7 +777,7 @@ class Runner:
             m = min(len(want), len(got))
             if not _same_states(want[:m], got[:m]):
                 i = next(i for i, (a, b) in enumerate(zip(want, got)) if not _same_states([a], [b]))
-                tag = "Optimizer" if kind == "Optimizer" else "MCMC:" + _cfg_tag(cfg)
+                tag = kind if kind in ("Optimizer", "HMC") else "MCMC:" + _cfg_tag(cfg)
                 self.fail.append((f"resume-differs:{tag}:states",
                                   f"{_cfg_tag(cfg)}: run resumed after iteration {k} leaves the uninterrupted trajectory "
                                   f"{i + 1} step(s) after the restart", dict(replay, steps_after_restart=i + 1)))
@@ -725,6 +819,8 @@ def _is_checkpoint_write_error(err):
 
 
 def _cfg_tag(cfg):
+    if "ops" not in cfg and "algo" not in cfg:
+        return "HMC"
     return cfg.get("algo") or ("+".join(cfg.get("ops", [])) + "/" + cfg.get("adaptors", ""))
 
 
@@ -1042,6 +1138,9 @@ def run_cfg(runner: Runner, kind, cfg, points):
     if kind == "Optimizer":
         fn = lambda: spec_opt(cfg["algo"], cfg["sched"], cfg["iters"], cfg["freq"], cfg["nn"], cfg["two_d"], cfg["explicit_dtype"])  # noqa: E731
         args = ["--dtype", cfg["dtype"], "-s", "1"]
+    elif kind == "HMC":
+        fn = lambda: spec_hmc(cfg["iters"], cfg["freq"], cfg.get("dense", False))  # noqa: E731
+        args = ["--dtype", cfg["dtype"], "-s", str(cfg["seed"])]
     else:
         fn = lambda: spec_mcmc(cfg["ops"], ADAPTORS[cfg["adaptors"]], cfg["iters"], cfg["freq"])  # noqa: E731
         args = ["--dtype", cfg["dtype"], "-s", str(cfg["seed"])]
@@ -1152,6 +1251,9 @@ def run(ck: Check):
             run_cfg(runner, "Optimizer", cfg, points)
         for cfg in mcmc_configs(ck):
             run_cfg(runner, "MCMC", cfg, "all" if cfg["iters"] <= 36 else points)
+        for _ in range(1 if not ck.thorough() else 4):
+            run_cfg(runner, "HMC", {"iters": ck.rng.choice([6, 9]), "freq": ck.rng.choice([2, 3]), "dtype": ck.rng.choice(["float32", "float64"]),
+                                    "seed": ck.rng.randrange(1, 1000)}, "all")
         runnable = [c for c in ocfgs if c["algo"] in ("Adam", "SGD", "RMSprop", "Adagrad")]
         for cfg in ck.rng.sample(runnable, min(len(runnable), 6 if ck.thorough() else 1)):
             subprocess_restart(ck, runner, cfg)
